@@ -594,10 +594,10 @@ SCAN_EMPTY = dict(region='scan_empty', file='cmdline/scan.c', begin='/* check fo
                   proto='static void region_scan_empty(struct snapraid_state *state, tommy_list scanlist, int is_diff)',
                   prologue='\ttommy_node *i;\n\ttommy_node *j;\n\tint done;')
 SYNC_PSIZE = dict(region='sync_psize', file='cmdline/sync.c', scope='int state_sync(struct snapraid_state* state, block_off_t blockstart, block_off_t blockcount)',
-                  begin='/* minimum size of the parity files we expect */', end='unrecoverable_error = 0;', end_first_after=True, max_lines=90, expect_loops=1,
-                  proto='static void region_sync_psize(struct snapraid_state *state, block_off_t blockstart, block_off_t blockcount, block_off_t *blockmax_p, struct snapraid_parity_handle *parity_handle)',
+                  begin='/* minimum size of the parity files we expect */', end='unrecoverable_error = 0;', end_first_after=True, max_lines=90,
+                  proto='static int region_sync_psize(struct snapraid_state *state, block_off_t blockstart, block_off_t blockcount, block_off_t *blockmax_p, struct snapraid_parity_handle *parity_handle)',
                   prologue='\tblock_off_t blockmax = *blockmax_p;\n\tblock_off_t used_paritymax;\n\tblock_off_t file_paritymax;\n\tunsigned l;\n\tint ret;',
-                  epilogue='\t*blockmax_p = blockmax;')
+                  epilogue='\t*blockmax_p = blockmax;\n\treturn 0;')
 STATE_Z = dict(region='state_z', file='cmdline/state.c', scope="} else if (c == 'z') {", begin='uint32_t block_size;', include_begin=True,
                end="} else if (c == 'y') {", end_first_after=True, max_lines=50, expect_loops=0,
                proto='static void region_state_z(struct snapraid_state *state, STREAM *f, const char *path)', prologue='\tint ret;')
